@@ -1065,6 +1065,24 @@ def stream_convert(rng, tier):
         yield "cmp i ref %s %s" % (hx(b), hx(base))
         yield "hash u ref %s" % hx(b)
         yield "hash i ref %s" % hx(b)
+        # two full values that differ in two components at once (an ordering that visits the
+        # components in another order in one family shows only there)
+        _, _, _, Q, F = fam_lists("u")
+        stem = base.split("#")[0].split("?")[0]
+        q1, q2, f1, f2 = rng.choice(Q), rng.choice(Q), rng.choice(F), rng.choice(F)
+        x = stem + ("" if q1 is None else "?" + q1) + ("" if f1 is None else "#" + f1)
+        y = stem + ("" if q2 is None else "?" + q2) + ("" if f2 is None else "#" + f2)
+        for kind in ("full", "ref"):
+            yield "cmp u %s %s %s" % (kind, hx(x), hx(y))
+            yield "cmp i %s %s %s" % (kind, hx(x), hx(y))
+    opp = [("a:b?x#2", "a:b?y#1"), ("s://h/p#b", "s://h/p?q#a"), ("s://g/b", "s://h/a"), ("s://h:2/a", "s://h:1/b"),
+           ("s://u@h/b", "s://v@h/a"), ("a://z", "b://y"), ("s://h/a?2", "s://h/b?1"), ("s:a#2", "s:b#1"), ("s://g?2", "s://h?1")]
+    for x, y in opp + [(b, a) for a, b in opp]:
+        for kind in ("full", "ref"):
+            yield "cmp u %s %s %s" % (kind, hx(x), hx(y))
+            yield "cmp i %s %s %s" % (kind, hx(x), hx(y))
+        yield "cross u %s %s" % (hx(x), hx(y))
+        yield "cross i %s %s" % (hx(x), hx(y))
 
 
 def stream_routes(rng, tier):
